@@ -125,7 +125,7 @@ theorem encodeString_other (obj : Val) (p : String) (ps : List String)
 
 theorem encStr_nonflags (ms : Go.Opaque → List Val → String × Option Err) (gf : String → Go.Opaque × Option Err)
     (hGF : GetFormatSpec gf)
-    (fuel : Nat) (obj : Val) (mf mfd : Go.Opaque) (spec : String) (depth : Int)
+    (fuel : Nat) (obj : Val) (mf : Go.Doc) (mfd : List Go.Doc) (spec : String) (depth : Int)
     (hnf : (spec.splitOn ":").headD "" ≠ "flags") :
     process2EncodeString' ms gf (fuel+1) obj mf mfd spec depth
       = .ok (tolistFix (spec.splitOn ":") (encResToGo ms gf (encodeString obj spec))) := by
@@ -298,7 +298,7 @@ theorem encodeListWith_errNorm (ms : Go.Opaque → List Val → String × Option
 
 /-- process2EncodeAny on a string spec is process2EncodeString with one unit of fuel less -/
 theorem encAny_str (ms : Go.Opaque → List Val → String × Option Err) (gf : String → Go.Opaque × Option Err)
-    (fuel : Nat) (obj : Val) (mf mfd : Go.Opaque) (s : String) (depth : Int) :
+    (fuel : Nat) (obj : Val) (mf : Go.Doc) (mfd : List Go.Doc) (s : String) (depth : Int) :
     process2EncodeAny' ms gf (fuel+1) obj mf mfd (.str s) depth
       = process2EncodeString' ms gf fuel obj mf mfd s depth := by
   rw [process2EncodeAny']
@@ -307,7 +307,7 @@ theorem encAny_str (ms : Go.Opaque → List Val → String × Option Err) (gf : 
 
 /-- process2EncodeAny on a list of specs, given the facts about the elements -/
 theorem encAny_list (ms : Go.Opaque → List Val → String × Option Err) (gf : String → Go.Opaque × Option Err)
-    (fuel : Nat) (obj : Val) (mf mfd : Go.Opaque) (specs : List Val) (depth : Int)
+    (fuel : Nat) (obj : Val) (mf : Go.Doc) (mfd : List Go.Doc) (specs : List Val) (depth : Int)
     (hall : ∀ sp ∈ specs, ∀ o, ∃ r, process2EncodeAny' ms gf fuel o mf mfd sp depth = .ok r ∧
       errNorm r = encodeAnyWith ms gf o sp) :
     process2EncodeAny' ms gf (fuel+1) obj mf mfd (.list specs) depth
@@ -384,7 +384,7 @@ theorem encodeListWith_flags (ms : Go.Opaque → List Val → String × Option E
     parameters; a failing `tolist:<d>` returns an empty `[]any` (not `nil`) next to its error -/
 theorem T_process2EncodeString_exact (ms : Go.Opaque → List Val → String × Option Err)
     (gf : String → Go.Opaque × Option Err) (hGF : GetFormatSpec gf)
-    (fuel : Nat) (obj : Val) (mf mfd : Go.Opaque) (spec : String) (depth : Int) (hf : 4 ≤ fuel) :
+    (fuel : Nat) (obj : Val) (mf : Go.Doc) (mfd : List Go.Doc) (spec : String) (depth : Int) (hf : 4 ≤ fuel) :
     process2EncodeString' ms gf fuel obj mf mfd spec depth
       = .ok (tolistFix (spec.splitOn ":") (encResToGo ms gf (encodeString obj spec))) := by
   by_cases hnf : (spec.splitOn ":").headD "" = "flags"
@@ -423,7 +423,7 @@ theorem T_process2EncodeString_exact (ms : Go.Opaque → List Val → String × 
     the same error class, and without an error the same value -/
 theorem T_process2EncodeString_eq (ms : Go.Opaque → List Val → String × Option Err)
     (gf : String → Go.Opaque × Option Err) (hGF : GetFormatSpec gf)
-    (fuel : Nat) (obj : Val) (mf mfd : Go.Opaque) (spec : String) (depth : Int) (hf : 4 ≤ fuel) :
+    (fuel : Nat) (obj : Val) (mf : Go.Doc) (mfd : List Go.Doc) (spec : String) (depth : Int) (hf : 4 ≤ fuel) :
     ∃ r, process2EncodeString' ms gf fuel obj mf mfd spec depth = .ok r ∧
       errNorm r = encResToGo ms gf (encodeString obj spec) :=
   ⟨_, T_process2EncodeString_exact ms gf hGF fuel obj mf mfd spec depth hf,
@@ -432,7 +432,7 @@ theorem T_process2EncodeString_eq (ms : Go.Opaque → List Val → String × Opt
 /-! ## process2EncodeAny -/
 
 theorem encodeAny_eq_aux (ms : Go.Opaque → List Val → String × Option Err)
-    (gf : String → Go.Opaque × Option Err) (hGF : GetFormatSpec gf) (mf mfd : Go.Opaque) :
+    (gf : String → Go.Opaque × Option Err) (hGF : GetFormatSpec gf) (mf : Go.Doc) (mfd : List Go.Doc) :
     ∀ (n : Nat) (spec : Val), Go.depth spec ≤ n → ∀ fuel, n + 5 ≤ fuel → ∀ (obj : Val) (depth : Int),
       ∃ r, process2EncodeAny' ms gf fuel obj mf mfd spec depth = .ok r ∧
         errNorm r = encodeAnyWith ms gf obj spec ∧
@@ -484,7 +484,7 @@ theorem encodeAny_eq_aux (ms : Go.Opaque → List Val → String × Option Err)
     error class, and without an error the same value — for every spec, given fuel for its nesting depth -/
 theorem T_process2EncodeAny_eq (ms : Go.Opaque → List Val → String × Option Err)
     (gf : String → Go.Opaque × Option Err) (hGF : GetFormatSpec gf)
-    (fuel : Nat) (obj : Val) (mf mfd : Go.Opaque) (spec : Val) (depth : Int) (hf : Go.depth spec + 5 ≤ fuel) :
+    (fuel : Nat) (obj : Val) (mf : Go.Doc) (mfd : List Go.Doc) (spec : Val) (depth : Int) (hf : Go.depth spec + 5 ≤ fuel) :
     ∃ r, process2EncodeAny' ms gf fuel obj mf mfd spec depth = .ok r ∧
       errNorm r = encodeAnyWith ms gf obj spec := by
   obtain ⟨r, hr, hn, _⟩ := encodeAny_eq_aux ms gf hGF mf mfd (Go.depth spec) spec (Nat.le_refl _) fuel hf obj depth
@@ -493,7 +493,7 @@ theorem T_process2EncodeAny_eq (ms : Go.Opaque → List Val → String × Option
 /-- … and literally so for a list of specs -/
 theorem T_process2EncodeAny_list_eq (ms : Go.Opaque → List Val → String × Option Err)
     (gf : String → Go.Opaque × Option Err) (hGF : GetFormatSpec gf)
-    (fuel : Nat) (obj : Val) (mf mfd : Go.Opaque) (specs : List Val) (depth : Int)
+    (fuel : Nat) (obj : Val) (mf : Go.Doc) (mfd : List Go.Doc) (specs : List Val) (depth : Int)
     (hf : Go.depth (.list specs) + 5 ≤ fuel) :
     process2EncodeAny' ms gf fuel obj mf mfd (.list specs) depth
       = .ok (encodeAnyWith ms gf obj (.list specs)) := by
@@ -595,7 +595,7 @@ theorem encodeAnyWith_codec_last (ms : Go.Opaque → List Val → String × Opti
 /-- process2.go:process2EncodeAny is the model's `encodeAny` wherever the model does not stop at a codec -/
 theorem T_process2EncodeAny_eq_model (ms : Go.Opaque → List Val → String × Option Err)
     (gf : String → Go.Opaque × Option Err) (hGF : GetFormatSpec gf)
-    (fuel : Nat) (obj : Val) (mf mfd : Go.Opaque) (spec : Val) (depth : Int) (hf : Go.depth spec + 5 ≤ fuel)
+    (fuel : Nat) (obj : Val) (mf : Go.Doc) (mfd : List Go.Doc) (spec : Val) (depth : Int) (hf : Go.depth spec + 5 ≤ fuel)
     (hnc : ∀ f v, encodeAny obj spec ≠ .codec f v) :
     ∃ r, process2EncodeAny' ms gf fuel obj mf mfd spec depth = .ok r ∧
       errNorm r = encResToGo ms gf (encodeAny obj spec) := by
@@ -605,7 +605,7 @@ theorem T_process2EncodeAny_eq_model (ms : Go.Opaque → List Val → String × 
 /-- … and for a stack of transforms that ends in a codec -/
 theorem T_process2EncodeAny_eq_codec_last (ms : Go.Opaque → List Val → String × Option Err)
     (gf : String → Go.Opaque × Option Err) (hGF : GetFormatSpec gf)
-    (fuel : Nat) (obj : Val) (mf mfd : Go.Opaque) (pre : List Val) (s : String) (v : Val) (depth : Int)
+    (fuel : Nat) (obj : Val) (mf : Go.Doc) (mfd : List Go.Doc) (pre : List Val) (s : String) (v : Val) (depth : Int)
     (hf : Go.depth (.list (pre ++ [.str s])) + 5 ≤ fuel) (h : encodeList obj pre = .ok v) :
     process2EncodeAny' ms gf fuel obj mf mfd (.list (pre ++ [.str s])) depth
       = .ok (encResToGo ms gf (encodeAny obj (.list (pre ++ [.str s])))) := by
@@ -628,7 +628,7 @@ example : GetFormatSpec gfModel := fun _ => rfl
 
 /-- `GetFormatSpec` is needed: with a `GetFormat` that accepts "nosuch" the Go code encodes, the model says
     `ErrUnknownFormat` -/
-example : process2EncodeString' msName gfAll 4 (.int 1) "" "" "nosuch" 0 = .ok (.str "nosuch", none)
+example : process2EncodeString' msName gfAll 4 (.int 1) default [] "nosuch" 0 = .ok (.str "nosuch", none)
     ∧ encResToGo msName gfAll (encodeString (.int 1) "nosuch") = (.null, some Err.unknownFormat) := by
   constructor
   · unfold process2EncodeString'
@@ -640,7 +640,7 @@ example : process2EncodeString' msName gfAll 4 (.int 1) "" "" "nosuch" 0 = .ok (
 
 /-- the value next to an error: a failing `tolist:=` returns an empty `[]any`, not `nil` (so the theorems compare
     results through `errNorm`) -/
-example : process2EncodeString' msName gfModel 4 (.int 1) "" "" "tolist:=" 0
+example : process2EncodeString' msName gfModel 4 (.int 1) default [] "tolist:=" 0
     = .ok (.list [], some Err.invalidType)
     ∧ encResToGo msName gfModel (encodeString (.int 1) "tolist:=") = (.null, some Err.invalidType) := by
   constructor
@@ -669,12 +669,12 @@ example : encodeAnyWith msName gfModel (.int 1) (.list [.str "json", .str "value
     rw [h1]
 
 /-- a codec at the END of a stack -/
-example : process2EncodeAny' msName gfModel 6 (.map [("a", .int 1)]) "" "" (.list [.str "tolist:=", .str "json"]) 0
+example : process2EncodeAny' msName gfModel 6 (.map [("a", .int 1)]) default [] (.list [.str "tolist:=", .str "json"]) 0
     = .ok (.str "json", none) := by
   have h : encodeList (.map [("a", .int 1)]) [.str "tolist:="] = .ok (.list [.str "a=1"]) := by
     simp only [encodeList, encodeAny, encodeString_tolist_eq]
     rfl
-  have := T_process2EncodeAny_eq_codec_last msName gfModel (fun _ => rfl) 6 (.map [("a", .int 1)]) "" ""
+  have := T_process2EncodeAny_eq_codec_last msName gfModel (fun _ => rfl) 6 (.map [("a", .int 1)]) default []
     [.str "tolist:="] "json" _ 0 (by decide) h
   simp only [List.cons_append, List.nil_append] at this
   rw [this]
@@ -691,7 +691,7 @@ example : ∀ f v, encodeAny (.map [("a", .int 1)]) (.str "flags") ≠ .codec f 
   cases h
 
 /-- `flags` needs the four units of fuel -/
-example : process2EncodeString' msName gfModel 3 (.map []) "" "" "flags" 0 = .error GErr.fuel := by
+example : process2EncodeString' msName gfModel 3 (.map []) default [] "flags" 0 = .error GErr.fuel := by
   unfold process2EncodeString'
   rw [parts_flags]
   simp [strAt_zero, process2EncodeAny', forRange, process2EncodeString']
